@@ -284,6 +284,10 @@ def unbox(v, dt):
     k = dt.kind
     if k == "f":
         if v is None: return z3.fpNaN(F64)
+        if isinstance(v, (SymDT, symx.SymTD)):
+            # measured on NumPy 2.0.2: a datetime64 / timedelta64 scalar stored into a float array gives its ticks
+            # (in the scalar's own unit; NaT gives -9.223372036854776e18)
+            return z3.fpSignedToFP(symx.RNE, v.e, F64)
         e = SymF64.lift(v)
         if e is None: raise ModelGap(f"store {type(v).__name__} into float array")
         return e
